@@ -28,6 +28,7 @@ pub fn replay(cases: &str, verdicts: &str) {
             ("after-zero-data", Some(vec![0.0; x.len()])),
             ("after-even-polynomial", Some(x.iter().map(|t| 3.0 - t * t * (if d >= 2 { 1.0 } else { 0.0 })).collect())),
             ("after-tiny-responses", Some(x.iter().map(|t| 1e-18 * (1.0 + t)).collect())),
+            ("after-huge-responses", Some(x.iter().map(|t| 1e18 * (1.0 + t * t)).collect())),
         ];
         for (hist, prev) in prevs {
             let g = guard(|| {
